@@ -1,3 +1,4 @@
+import Bec2Verif.Lemmas.Filter
 import Bec2Verif.Model.Bf2
 import Bec2Verif.Lemmas.Bytes
 /-!
@@ -487,5 +488,22 @@ theorem orphan_continuation_rejected (s : IState) (l0 : Line) (rest : List Line)
 
 example : Gen.BF2_TAGTYPE_MAP.lookup 0x34 = some (none, none, none, none) ∧ isKnownTagtype 0x3E = true ∧
     Gen.BF2_TAGTYPE_MAP.lookup 0x3E = none := by decide
+
+/-- **the platform filter in the summary comment is the notation of what the filter bytes mean**: for every well-framed
+filter (`01`, entry count, entries) the rendered text is `Spec.Filter.render` of `Spec.Filter.groups` of its entries — the
+groups joined by ` & `, each group of more than one entry in parentheses with ` | ` between its literals, a literal the
+component's name (or `0xHHHH`) with `!` when bit 14 is set — and `Spec.Filter.accepts` is that conjunction of disjunctions as
+a predicate on the components a device has.  Every number of entries, every mix of flags. -/
+theorem filter_text_is_notation_of_filter_bytes (n : UInt8) (r : Bytes) (hn : 2 + n.toNat * 2 = (1 :: n :: r).length) :
+    pfid2FilterToStr (1 :: n :: r) =
+      .ok (Spec.Filter.render (Spec.Filter.groups (Spec.Filter.entries r) [])) :=
+  Spec.Filter.pfid2FilterToStr_render 1 n r rfl hn
+
+/-- reading of the notation on an example: `01 03 | 80 9B | 00 AD | 40 BE` is "(SM4200 or PN5180) and not BGM12X" -/
+example : Spec.Filter.groups (Spec.Filter.entries [0x80, 0x9B, 0x00, 0xAD, 0x40, 0xBE]) [] =
+    [[⟨0x9B, false⟩, ⟨0xAD, false⟩], [⟨0xBE, true⟩]] := by decide
+example : (match pfid2FilterToStr [0x01, 0x03, 0x80, 0x9B, 0x00, 0xAD, 0x40, 0xBE] with
+    | .ok s => s == "(SM4200 | PN5180) & !BGM12X".toList | .error _ => false) = true := by decide +kernel
+example : Spec.Filter.accepts [[⟨0x9B, false⟩, ⟨0xAD, false⟩], [⟨0xBE, true⟩]] (fun h => h == 0xAD) = true := by decide
 
 end Bec2Verif.Props.C13
